@@ -676,9 +676,9 @@ func (h *Handler) GetClaims(req *ClaimsRequest) (*ClaimsResponse, error) {
 func (h *Handler) serveClaims(rw http.ResponseWriter, req *http.Request) {
 	defer httputil.RecoverJSON(rw, req)
 
-	h.index.RLock()
-	defer h.index.RUnlock()
-
+	// No h.index.RLock here: GetClaims takes it, and a recursive read
+	// lock deadlocks as soon as a writer (an indexing ReceiveBlob) queues
+	// up between the two acquisitions.
 	var cr ClaimsRequest
 	cr.fromHTTP(req)
 	res, err := h.GetClaims(&cr)
